@@ -17,9 +17,9 @@ EXTENDS Common, Json, CssScan
 CONSTANTS MaxSeg, MaxDepth, SelIdx, ValIdx, NameIdx, Fillers, Loose, SemiInParens,
           NoSemi       \* also generate a last declaration that is terminated by the end of the body (C17 only)
 
-Sels == <<"a", "a:hover", "@media (min-width: 10px)", "a::before", "b[x=\"{\"]", ".c > d", "e[t='a\"{']", "a:not([t=\"}\"])", "a, b", "&:hover", "a ~ b > c", "d/* { ; */ e", ":root", ":host(.x) :b">>     \* 12: a comment glued to the words of a selector; 13, 14: a selector that starts with a colon
+Sels == <<"a", "a:hover", "@media (min-width: 10px)", "a::before", "b[x=\"{\"]", ".c > d", "e[t='a\"{']", "a:not([t=\"}\"])", "a, b", "&:hover", "a ~ b > c", "d/* { ; */ e", ":root", ":host(.x) :b", "@media (a /* :) */)">>     \* 15: a comment inside parentheses that holds a bracket  \* 12: a comment glued to the words of a selector; 13, 14: a selector that starts with a colon
 Names == <<"color", "--v", "$v", "margin", "-webkit-x">>
-Vals == <<"red", "\"x;y\"", "url(a:b)", "1px  solid", "'{}'", "calc(1px + (2px))", "\"it's }\"", "'a\"{b;'", "url(\"x;y\")", "f(\")\", '(')", "50%", "10% 20%", "\"a\\\"b;\"", "red !important", "1px/* ; } */ 2px">>     \* 7, 8: a string holding the other kind of quote
+Vals == <<"red", "\"x;y\"", "url(a:b)", "1px  solid", "'{}'", "calc(1px + (2px))", "\"it's }\"", "'a\"{b;'", "url(\"x;y\")", "f(\")\", '(')", "50%", "10% 20%", "\"a\\\"b;\"", "red !important", "1px/* ; } */ 2px", "f(1 /* ( ' */ )">>     \* 16: a comment inside parentheses that holds a bracket and a quote  \* 7, 8: a string holding the other kind of quote
 BadVal == "f(c;d)"        \* a semicolon inside parentheses: known finding F16, generated only when SemiInParens
 
 VARIABLES doc, nodes, evs, open, nseg, hasF16
